@@ -481,9 +481,10 @@ def gen_stateless(ctx):
                    'perceptual': rng.random() < 0.4, 'reduction': rng.choice(['mean', 'sum']), 'scale': rng.choice([1.0, 0.0, 10.0]),
                    'flat_depth': rng.choice([None, None, None, 0.0, 1.0, 0.5])})
     for k in range(10 * n):
-        e1 = 10 ** rng.uniform(-4, -0.5)
-        cs.append({'family': 'psnr', 'shape': rng.choice([[3, 8, 8], [1, 3, 6, 6], [16, 16], [1, 1]]), 'seed': rng.randrange(10 ** 6),
-                   'e_small': e1, 'e_large': e1 * rng.choice([1.05, 1.5, 3.0, 100.0]), 'peak': rng.choice([1.0, 255.0, 0.5])})
+        # conditioning: errors well above the float32 spacing of the pixel values, enough pixels to average over
+        e1 = 10 ** rng.uniform(-3, -0.5)
+        cs.append({'family': 'psnr', 'shape': rng.choice([[3, 8, 8], [1, 3, 6, 6], [16, 16], [4, 4]]), 'seed': rng.randrange(10 ** 6),
+                   'e_small': e1, 'e_large': e1 * rng.choice([1.2, 1.5, 3.0, 100.0]), 'peak': rng.choice([1.0, 255.0, 0.5])})
     for k in range(12 * n):
         ks = rng.choice([2, 3, 7, 11]); side = ks + rng.randint(0, 9)
         cs.append({'family': 'speckle', 'shape': rng.choice([[side, side + 2], [1, 1, side, side]]), 'kernel': ks, 'step': rng.choice([[1, 1], [2, 3], [3, 3]]),
@@ -708,16 +709,17 @@ def run(ctx):
 
 def search(ctx):
     """Obligations broke without a failing input from run(): look further out."""
-    class T: pass
-    ctx2 = ctx
     old = ctx.thorough
-    ctx.thorough = True
     try:
+        ctx.thorough = True                       # four times the stateless cases, fresh random draws
         for inp in gen_stateless(ctx):
             apply_oracle(ctx, 'stateless', inp)
             if len(ctx.viol) > 3: return
+        ctx.thorough = False                      # histories: new random draws at the quick depth (bounded time)
         fresh = Fresh()
         for (label, env, ops) in gen_histories(ctx):
+            if label.startswith('exhaustive'):
+                continue
             for kind in KINDS:
                 apply_oracle(ctx, 'history', {'kind': kind, 'env': env, 'ops': ops, 'label': label}, fresh)
             if len(ctx.viol) > 3: return
